@@ -41,6 +41,8 @@ CLAIMED["C13"] = ("write-watchpoint sanitizer: a TorchDispatchMode observes ever
                   "runtime monitoring: torch-level write-watchpoint sanitizer (TorchDispatchMode) plus before/after snapshots")
 CLAIMED["C18"] = ("noise-interposer monitor: torch.randn is replaced (TorchFunctionMode) so that zero_mean_mvn_samples can be run once per unit vector of its flattened base noise (auxiliary draws such as random Lanczos start vectors come from a fixed seeded stream); the resulting matrix M of the map noise -> samples must be linear (a random noise vector reproduces M z), have output shape (k, *batch, n) and satisfy M M^T = I_k (x) blockdiag_b(A_b) to the accuracy of the root used (Lanczos roots, identified by hook events, against the orthogonal compression); the contour-integral variant is judged as A^1/2 z for the recorded noise",
                   "runtime monitoring: torch-level noise interposer turning the sampler into an exactly decidable linear map")
+CLAIMED["C12"] = ("history monitor with a fresh-copy reference: random histories of 2-8 queries and derivations on ONE operator object with settings changing between steps; each answer (canonical form) is compared with the same query on a freshly built copy that saw no earlier queries, and after every step each entry of the live memo dictionaries (history object and operators derived by add_jitter / add_diagonal / add_low_rank / cat_rows / indexing / transpose / scaling / expansion) is checked to be a valid answer for its key on the matrix its owner denotes (keyed orientation of Cholesky factors, roots multiply out, eigen / singular pairs reconstruct, cached dense values / diagonals / sizes); memo getters are wrapped to count cache hits and Lanczos hook events decide which tolerance applies",
+                  "runtime monitoring: recorded query histories checked against a history-free replica and a memo-validity invariant at quiescent points")
 PENDING = {}
 def main():
     hooks_commits = []
